@@ -711,12 +711,30 @@ def records(report, db, S):
     ph = S.run(hs)
     hme = sy(hs.params[0])
     hits = iterables(ph)
-    htype = any(struct(t) == ('op', 'type', (hme,)) for p in ph
-                for t in pathsum.subterms(p.value or ()))
-    hget = any(t[0] == 'op' and t[1] == 'getattr' and struct(t[2][0]) == hme
-               and t[2][1][0] == 'elem' for p in ph
-               for t in list(pathsum.subterms(p.value or ()))
-               + list(path_terms(p)))
+    rp = [p for p in ph if p.returns]
+    htype = bool(rp) and all(
+        any(struct(t) == ('op', 'type', (hme,))
+            for t in pathsum.subterms(p.value or ())) for p in rp)
+    hget = bool(rp) and all(
+        any(t[0] == 'op' and t[1] == 'getattr' and struct(t[2][0]) == hme
+            and t[2][1][0] == 'elem'
+            for t in list(pathsum.subterms(p.value or ()))
+            + list(path_terms(p))) for p in rp)
+    # the hash may use the field values only through what respects ==:
+    # equal values have equal hashes, but not equal texts (1 == 1.0 == True)
+    # or equal identities
+    TEXTUAL = ('repr', 'str', 'id', 'fmt', 'format', 'ascii', 'bytes', '%',
+               'fstr', 'join')
+    for p in rp:
+        for t in pathsum.subterms(p.value or ()):
+            if t[0] == 'op' and t[1] in TEXTUAL:
+                report.violation(
+                    R, 'record:hash-textual', hs.path, hs.node, hs.qualname,
+                    '__hash__ can hash the %s() of the field values [%s]: '
+                    'records that compare equal field-wise (1 == 1.0 == '
+                    'True, equal containers of them) then print, and so '
+                    'hash, differently' % (t[1], p.cond_text()))
+                break
     if len(its) == 1 and len(hits) == 1 and all(
             is_slots(t) for t in its | hits) and cmp_seen and type_ok and htype and hget:
         report.ok(R, '__eq__ and __hash__ both range over _all_slots() and '
